@@ -84,7 +84,7 @@ class SignalingList(MutableSequence[Any]):
             index: The index of the item to remove
 
         """
-        old_value = self.data
+        old_value = self.data[index]
         del self.data[index]
         self.owner.notify(self.name, old_value, None, "remove", index=index)
 
